@@ -113,8 +113,29 @@ static void gen(plan_t *p, rng_t *r)
         op_t *o = plan_op(p, 0, "new", 2, 0L, 0L);
         op_str(o, url, strlen(url));
         if (rng_chance(r, 1, 12)) plan_op(p, 0, "del", 1, 0L), o = plan_op(p, 0, "new", 2, 0L, 0L), op_str(o, url, strlen(url));
+        if (rng_chance(r, 1, 12)) {
+            /* a listener object whose open fails at bind (address taken) or listen, possibly copied, then deleted:
+               its descriptor must go with it */
+            int how = (int)rng_below(r, 3);
+            o = plan_op(p, 0, "new", 2, 3L, 0L); op_str(o, url, strlen(url));
+            o = plan_op(p, 0, "open", 1, 3L);
+            if (how == 0) op_fault(o, FAULT(FC_BIND, rng_chance(r, 1, 2) ? FO_EADDRINUSE : FO_EACCES, 0));
+            else if (how == 1) op_fault(o, FAULT(FC_LISTEN, FO_EADDRINUSE, 0));
+            if (rng_chance(r, 1, 3)) plan_op(p, 0, "open", 1, 3L);            /* retry */
+            if (rng_chance(r, 1, 3)) { plan_op(p, 0, "dup", 2, 3L, 2L); plan_op(p, 0, "del", 1, 2L); }
+            plan_op(p, 0, "del", 1, 3L);
+        }
         o = plan_op(p, 0, "open", 1, 0L);
         if (rng_chance(r, 1, 25)) op_fault(o, FAULT(FC_SOCKET, FO_EMFILE, 0));
+        else if (rng_chance(r, 1, 30)) op_fault(o, FAULT(FC_BIND, rng_chance(r, 1, 2) ? FO_EADDRINUSE : FO_EACCES, 0));
+        else if (rng_chance(r, 1, 30)) op_fault(o, FAULT(FC_LISTEN, FO_EADDRINUSE, 0));
+        if (rng_chance(r, 1, 10)) {
+            /* a second listener on the same path while the first may be bound: EADDRINUSE from the kernel itself */
+            o = plan_op(p, 0, "new", 2, 3L, 0L); op_str(o, url, strlen(url));
+            plan_op(p, 0, "open", 1, 3L);
+            if (rng_chance(r, 1, 3)) { plan_op(p, 0, "dup", 2, 3L, 2L); plan_op(p, 0, "del", 1, 2L); }
+            plan_op(p, 0, "del", 1, 3L);
+        }
         if (srv_nbio) plan_op(p, 0, "nbio", 2, 0L, 1L);
         if (rng_chance(r, 1, 10)) plan_op(p, 0, "checkio", 1, 0L);
         for (int c = 0; c < nclients; c++) {
@@ -141,10 +162,22 @@ static void gen(plan_t *p, rng_t *r)
     for (int c = 1; c <= nclients; c++) {
         const char *url = rng_chance(r, 1, 10) ? "unix:/tmp/nosuch" : rng_chance(r, 1, 2) ? "unix:/tmp/s0" : "/tmp/s0";
         int nsend = rng_range(r, 0, 4), nb = rng_chance(r, 1, 3);
-        op_t *o = plan_op(p, c, "new", 2, 0L, 1L);
-        op_str(o, url, strlen(url));
+        op_t *o;
+        if (rng_chance(r, 1, 10)) {
+            /* client with a local address too: bind, then connect; the bind may fail */
+            char local[32];
+            snprintf(local, sizeof(local), "unix:/tmp/c%d", rng_chance(r, 1, 4) ? 0 : c);
+            o = plan_op(p, c, "new", 2, 0L, 2L);
+            op_str(o, local, strlen(local)); op_str2(o, url, strlen(url));
+        } else {
+            o = plan_op(p, c, "new", 2, 0L, 1L);
+            op_str(o, url, strlen(url));
+        }
         o = plan_op(p, c, "open", 1, 0L);
         if (rng_chance(r, 1, 25)) op_fault(o, FAULT(FC_SOCKET, FO_EMFILE, 0));
+        else if (rng_chance(r, 1, 25)) op_fault(o, FAULT(FC_CONNECT, FO_ECONNREFUSED, 0));
+        else if (rng_chance(r, 1, 25)) op_fault(o, FAULT(FC_BIND, FO_EADDRINUSE, 0));
+        if (rng_chance(r, 1, 12)) plan_op(p, c, "open", 1, 0L);               /* open again: retry after a failure, EISCONN after success */
         if (nb) plan_op(p, c, "nbio", 2, 0L, 1L);
         if (rng_chance(r, 1, 10)) plan_op(p, c, "checkio", 1, 0L);
         for (int k = 0; k < nsend; k++) {
@@ -202,7 +235,16 @@ static void do_op(int t, op_t *o)
         memcpy(txt, o->s, o->slen); txt[o->slen] = 0;
         u = spif_url_new_from_ptr((spif_charptr_t)txt);
         sim_free(txt);
-        sock[t][s] = o->a[1] ? spif_socket_new_from_urls((spif_url_t)NULL, u) : spif_socket_new_from_urls(u, (spif_url_t)NULL);
+        if (o->a[1] == 2 && o->has_t) {
+            spif_url_t d;
+            txt = sim_malloc(o->tlen + 1);
+            memcpy(txt, o->t, o->tlen); txt[o->tlen] = 0;
+            d = spif_url_new_from_ptr((spif_charptr_t)txt);
+            sim_free(txt);
+            sock[t][s] = spif_socket_new_from_urls(u, d);
+            spif_url_del(d);
+        } else
+            sock[t][s] = o->a[1] ? spif_socket_new_from_urls((spif_url_t)NULL, u) : spif_socket_new_from_urls(u, (spif_url_t)NULL);
         spif_url_del(u);
         if (!sock[t][s]) sim_fail("MISMATCH(new)", "spif_socket_new_from_urls returned NULL");
         tr_printf("t%d new slot%d", t, s);
